@@ -6,7 +6,9 @@ import (
 	"context"
 	"errors"
 	"fmt"
+	"math/rand"
 	"runtime"
+	"strings"
 	"sync"
 	"sync/atomic"
 	"testing"
@@ -198,6 +200,9 @@ func TestVerifC16Dispose(t *testing.T) {
 	for _, kd := range kinds {
 		run.Floor("overlap_runs_"+kd, 100)
 	}
+	for _, f := range []string{"lower", "mixed-case", "padded", "unicode", "empty", "long"} {
+		run.Floor("manager_held_family_"+f, 50)
+	}
 	for trial := 0; trial < n && run.Violations() < 20 && run.Counter("leak_violations") < 3; trial++ {
 		kind := kinds[trial%len(kinds)]
 		path := paths[r.Intn(len(paths))]
@@ -300,17 +305,84 @@ func c16Judge(run *vk.Run, d *c16Disp, path string, k int, late *atomic.Int32, d
 
 // ResourceManager: K concurrent DisposeAll (+ optional concurrent Register of a fresh
 // resource); every resource registered before the race is disposed exactly once.
+// c16Names: resource-name families. Names that are distinct strings are distinct
+// resources for the harness; it never relies on that, though: what the manager holds is
+// decided from the return values of Register / Unregister only.
+var c16Names = []struct{ family, name string }{
+	{"lower", "r0"}, {"lower", "storage"}, {"lower", "session-manager"},
+	{"mixed-case", "Storage"}, {"mixed-case", "STORAGE"}, {"mixed-case", "SessionManager"}, {"mixed-case", "TunnelBridge-c16"},
+	{"padded", " storage"}, {"padded", "storage "}, {"padded", "\tcache\n"}, {"padded", " Session Manager "},
+	{"unicode", "存储"}, {"unicode", "Straße"}, {"unicode", "STRASSE"}, {"unicode", "İstanbul"}, {"unicode", "ＡＢＣ"},
+	{"empty", ""}, {"empty", " "},
+	{"long", strings.Repeat("LongResourceName/", 600)}, {"long", strings.Repeat("longresourcename/", 600)},
+}
+
+type c16MRes struct {
+	family, name string
+	runs         atomic.Int32
+	held         bool // Register returned nil and no successful Unregister of this very name since
+	everHeld     bool
+}
+
+func (r *c16MRes) Dispose() error { r.runs.Add(1); return nil }
+
+// ResourceManager: a seeded history of Register / Unregister / re-Register over names from
+// the families above, then K concurrent DisposeAll (+ optional concurrent Register of a
+// fresh resource). Every resource the manager accepted and did not give back is disposed
+// exactly once; refused and unregistered ones are never disposed.
 func c16TrialManager(run *vk.Run, seed int64, k, h int, spins []int, path string, desc map[string]any) {
+	r := rand.New(rand.NewSource(seed))
 	rm := NewResourceManager()
-	counts := make([]*atomic.Int32, h)
-	for i := range counts {
-		counts[i] = &atomic.Int32{}
-		if err := rm.Register(fmt.Sprintf("r%d", i), c16Res{counts[i]}); err != nil {
-			run.Count("harness_register_error", 1)
-			return
+	var all []*c16MRes
+	byName := map[string]*c16MRes{} // currently held, by exact registration name
+	var hist []string
+	steps := h + r.Intn(2*h+2)
+	for i := 0; i < steps; i++ {
+		pick := c16Names[r.Intn(len(c16Names))]
+		if cur, ok := byName[pick.name]; ok && r.Intn(2) == 0 {
+			// give a held resource back, under exactly the name it was registered with
+			err := rm.Unregister(pick.name)
+			hist = append(hist, fmt.Sprintf("Unregister(%.24q)=%v", pick.name, err == nil))
+			if err == nil {
+				cur.held = false
+				delete(byName, pick.name)
+			} else {
+				run.Count("unregister_of_held_name_refused", 1)
+			}
+			continue
+		}
+		res := &c16MRes{family: pick.family, name: pick.name}
+		all = append(all, res)
+		err := rm.Register(pick.name, res)
+		hist = append(hist, fmt.Sprintf("Register(%.24q)=%v", pick.name, err == nil))
+		if err == nil {
+			if old, dup := byName[pick.name]; dup {
+				// accepted although the very same string is held: the old one was replaced
+				old.held = false
+				run.Count("register_replaced_same_name", 1)
+			}
+			res.held, res.everHeld = true, true
+			byName[pick.name] = res
+		} else if _, dup := byName[pick.name]; !dup {
+			run.Count("register_refused_for_new_string", 1)
 		}
 	}
-	var late atomic.Int32
+	desc["history"] = hist
+	heldCount := 0
+	fams := map[string]bool{}
+	for _, res := range all {
+		if res.held {
+			heldCount++
+			fams[res.family] = true
+		}
+	}
+	if heldCount > 0 {
+		run.Count("manager_trials_with_held_resources", 1)
+	}
+	for f := range fams {
+		run.Count("manager_held_family_"+f, 1)
+	}
+	late := &c16MRes{family: "late", name: "Late Resource"}
 	fns := make([]func(), 0, k+1)
 	for i := 0; i < k; i++ {
 		if (seed>>uint(i))&1 == 0 {
@@ -320,31 +392,40 @@ func c16TrialManager(run *vk.Run, seed int64, k, h int, spins []int, path string
 		}
 	}
 	if path == "add-handler" {
-		fns = append(fns, func() { _ = rm.Register("late", c16Res{&late}) })
+		fns = append(fns, func() { _ = rm.Register(late.name, late) })
 	}
 	maxIn, ok := c16RunRace(fns, spins)
 	if !c16Overlap(run, "ResourceManager", path, k, maxIn, ok) {
 		return
 	}
 	judge := func(when string) {
-		for i, c := range counts {
-			if got := c.Load(); got != 1 {
-				cls := "0"
-				if got > 1 {
-					cls = "2+"
-				}
-				run.Violation("C16:dispose|ResourceManager|dispose-runs="+cls, map[string]any{"case": desc, "resource": i, "runs": got, "when": when})
+		for i, res := range all {
+			got := res.runs.Load()
+			want := int32(0)
+			if res.held {
+				want = 1
 			}
+			if got == want {
+				continue
+			}
+			cls := "0"
+			if got > 1 {
+				cls = "2+"
+			} else if got == 1 {
+				cls = "1-but-not-held"
+			}
+			run.Violation("C16:dispose|ResourceManager|dispose-runs="+cls+"|name="+res.family,
+				map[string]any{"case": desc, "resource": i, "name": fmt.Sprintf("%.40q", res.name), "ever_accepted": res.everHeld, "held_at_dispose": res.held, "runs": got, "when": when})
 		}
-		if late.Load() > 1 {
-			run.Violation("C16:dispose|ResourceManager|late-resource-runs=2+", map[string]any{"case": desc, "runs": late.Load()})
+		if late.runs.Load() > 1 {
+			run.Violation("C16:dispose|ResourceManager|late-resource-runs=2+", map[string]any{"case": desc, "runs": late.runs.Load()})
 		}
 	}
 	judge("after-disposeall")
 	for _, op := range []c16Op{
 		{"DisposeAll", func() { rm.DisposeAll() }}, {"ListResources", func() { rm.ListResources() }},
-		{"GetResourceCount", func() { rm.GetResourceCount() }}, {"GetResource", func() { rm.GetResource("r0") }},
-		{"Unregister", func() { _ = rm.Unregister("r0") }},
+		{"GetResourceCount", func() { rm.GetResourceCount() }}, {"GetResource", func() { rm.GetResource("Storage") }},
+		{"Unregister", func() { _ = rm.Unregister(" storage") }},
 	} {
 		name, f := op.name, op.f
 		func() {
